@@ -51,6 +51,15 @@ def run(prog, rep, tier):
     from ..core import reuse_rule
     reuse_rule(rep, C09.r9_4, "R11.8", prog)
     rep.floor("R11.8", 12)
+    # "formulae's built-in names": exactly the names of the two registries as written in the source, plus what the user registers
+    # through the documented registration call - nothing else in the package writes TRANSFORMS / ENCODINGS (a class that
+    # registers itself on definition would turn every user Encoding subclass into a built-in name that beats the caller's
+    # scopes).  C07's R7.3 (writers of long-lived state), reported here as R11.9
+    from . import C07
+    from .. import predpath
+    reuse_rule(rep, C07.r7_3, "R11.9", prog, predpath.get(prog),
+               keep=lambda it: any(t in it.get("construct", "") for t in ("TRANSFORMS", "ENCODINGS")))
+    rep.floor("R11.9", 2)
     rep.floor("R11.1", 5)
     rep.floor("R11.3", 6)
     rep.floor("R11.4", 6)
